@@ -34,6 +34,23 @@ impl<'a> TypeIndex<'a> {
         }
         out
     }
+    /// COVERAGE ONLY (never judges): which plausible-but-wrong ancestor walks would fail to reach `b` from `s` — walks that
+    /// stop working on a parent list at the first already collected type ("don't walk a diamond twice" done with `break`):
+    /// stack order, queue order, recursive pre-order. Empty when `b` is reached by all of them.
+    pub fn missed_by_early_stop(&self, b: &str, s: &str) -> Vec<&'static str> {
+        let mut out = vec![];
+        for (name, fifo) in [("stack_order", false), ("queue_order", true)] {
+            let mut seen: Vec<&str> = vec![]; let mut todo: std::collections::VecDeque<&str> = [s].into();
+            while let Some(x) = if fifo { todo.pop_front() } else { todo.pop_back() } {
+                for p in self.parents.get(x).into_iter().flatten() { if seen.contains(p) { break; } seen.push(p); todo.push_back(p); }
+            }
+            if !seen.contains(&b) { out.push(name); }
+        }
+        fn rec<'x>(ix: &TypeIndex<'x>, x: &str, seen: &mut Vec<&'x str>) { for p in ix.parents.get(x).into_iter().flatten() { if seen.contains(p) { break; } seen.push(p); rec(ix, p, seen); } }
+        let mut seen = vec![]; rec(self, s, &mut seen);
+        if !seen.contains(&b) { out.push("recursive_preorder"); }
+        out
+    }
     /// bridge-compatibility of one position (bridge's type, delegate's type)
     pub fn compat(&self, b: &Ty, s: &Ty) -> Compat {
         if b == s { return Compat::Yes; }
@@ -64,6 +81,11 @@ pub struct Candidate {
     pub why: &'static str,
     pub flagged: bool,
     pub ops: Vec<u8>,
+    /// coverage fact: an unflagged compatible bridge whose deciding super type an early-stopping ancestor walk would miss
+    pub early_stop_traps: Vec<&'static str>,
+    /// coverage fact: longest chain of super-type edges between a deciding bridge type and the delegate's type is >= 3,
+    /// and the delegate's type has a redundantly declared parent
+    pub redundant_hierarchy: bool,
 }
 
 /// The statement's predicate, evaluated for EVERY method of the main jar.
@@ -72,7 +94,7 @@ pub fn classify(main: &JarD) -> Vec<Candidate> {
     let mut out = vec![];
     for c in &main.classes {
         for m in &c.methods {
-            let mut cand = Candidate { class: c.name.clone(), name: m.name.clone(), desc: m.desc.clone(), spec: None, expect: Expect::MustNot, why: "", flagged: m.access & BRIDGE != 0, ops: vec![] };
+            let mut cand = Candidate { class: c.name.clone(), name: m.name.clone(), desc: m.desc.clone(), spec: None, expect: Expect::MustNot, why: "", flagged: m.access & BRIDGE != 0, ops: vec![], early_stop_traps: vec![], redundant_hierarchy: false };
             let regular: Vec<&CallD> = m.calls.iter().filter(|k| (182..=185).contains(&k.op) && !k.owner.starts_with('[')).collect();
             let irregular = m.calls.len() != regular.len();
             let distinct: BTreeSet<(&str, &str, &str)> = regular.iter().map(|k| (k.owner.as_str(), k.name.as_str(), k.desc.as_str())).collect();
@@ -101,7 +123,19 @@ pub fn classify(main: &JarD) -> Vec<Candidate> {
                         all.push(match (&bd.ret, &sd.ret) { (None, None) => Compat::Yes, (Some(b), Some(s)) => ix.compat(b, s), _ => Compat::No });
                         if all.contains(&Compat::No) { (Expect::MustNot, "incompatible types") }
                         else if all.contains(&Compat::Open) { (Expect::May, "compatibility decided by a type outside the jar") }
-                        else { (Expect::Must, "unflagged, inheritable and compatible") }
+                        else {
+                            let mut pos: Vec<(&Ty, &Ty)> = bd.params.iter().zip(&sd.params).collect();
+                            if let (Some(b), Some(s)) = (&bd.ret, &sd.ret) { pos.push((b, s)); }
+                            for (b, s) in pos { if let (Ty::Obj(b), Ty::Obj(s)) = (b, s) {
+                                if b != s && b != OBJECT && ix.ancestors(s).iter().all(|a| ix.known.contains(a)) {
+                                    for v in ix.missed_by_early_stop(b, s) { if !cand.early_stop_traps.contains(&v) { cand.early_stop_traps.push(v); } }
+                                    // a parent list of s (or of an ancestor) names a type that is also inherited through another entry of the same list
+                                    let redundant = std::iter::once(s.as_str()).chain(ix.ancestors(s)).any(|t| { let ps = ix.parents.get(t).cloned().unwrap_or_default(); ps.iter().any(|p| ps.iter().any(|q| q != p && ix.ancestors(q).contains(p))) });
+                                    if redundant { cand.redundant_hierarchy = true; }
+                                }
+                            } }
+                            (Expect::Must, "unflagged, inheritable and compatible")
+                        }
                     }
                 };
             cand.expect = e; cand.why = why;
